@@ -15,12 +15,12 @@ import (
 	"go/format"
 	"go/parser"
 	"go/token"
-	"strconv"
 	"go/types"
 	"io/fs"
 	"os"
 	"path/filepath"
 	"sort"
+	"strconv"
 	"strings"
 
 	"golang.org/x/tools/go/ast/astutil"
